@@ -1,4 +1,4 @@
-CONSTANTS Behaviours = {"valid", "wrongNonce", "wrongImprint", "rejected", "badTokenSig", "httpError"}  MaxUrls = 2  CacheModes = {"off", "hitWrong"}  Variant = "AcceptRejected"
+CONSTANTS Behaviours = {"valid", "wrongNonce", "wrongImprint", "rejected", "revocationWarning", "badTokenSig", "httpError"}  MaxUrls = 2  CacheModes = {"off", "hitWrong"}  Variant = "AcceptRejected"
 SPECIFICATION Spec
 INVARIANTS OnlyGenuine NeverSilentlyOmitted FirstGenuineWins TriedInOrder GenuineSuffices
 CHECK_DEADLOCK FALSE
